@@ -279,10 +279,10 @@ func (c *Case) Done() {
 	}
 	for _, cl := range c.Classes {
 		vlib.Class(sub, "operand="+cl)
-		if cl == "sel" || cl == "junk" {
+		if cl == "sel" || cl == "junk" || cl == "n" || cl == "exponent" || cl == "line" {
 			continue
 		}
-		if !strings.HasPrefix(cl, "uniform") || strings.Contains(cl, "unreduced") {
+		if !(strings.HasPrefix(cl, "uniform") || strings.HasSuffix(cl, "/uniform")) || strings.Contains(cl, "unreduced") {
 			nt = true
 		}
 	}
